@@ -181,7 +181,7 @@ def noncontig(desc):
     return desc[0] == "wild" and (desc[2] & (desc[2] + 1)) != 0
 
 
-def port_lemmas():
+def port_lemmas(forms=None):
     """critical-point evaluation decides inclusion of port sets: if every critical point of the bottom set lies in the
     top set then so does every port (quantifier-free: the port p is a free variable of the refutation query)."""
     import z3
@@ -192,9 +192,10 @@ def port_lemmas():
               "gt": ("gt", 1), "lt": ("lt", 1), "range": ("range", 2), "none": None}
     umax = z3.BitVec("lu", W)
     p = z3.BitVec("lp", W)
+    forms = forms or PORT_P
     for bn, bs in shapes.items():
         for tn, ts in shapes.items():
-            if ts is None:
+            if ts is None or bn not in forms or tn not in forms:
                 continue
             b_ops = [z3.BitVec(f"lb{i}", W) for i in range(bs[1])] if bs else []
             t_ops = [z3.BitVec(f"lt{i}", W) for i in range(ts[1])]
